@@ -184,6 +184,19 @@ def trigger_job(j):
     elif override is None:
         return dict(viols=v, rc=res.rc)
     else:
+        # the override of ANOTHER interlock (and the force options that are no interlock override at all) must not lift this one
+        foreign = {("-E",): [("--force-zero",), ("-U", "-D", "-N", "--force-zero")],
+                   ("--force-zero",): [("-E",), ("-E", "-U", "-D", "-N")],
+                   ("-F",): [("-E", "--force-zero")], ("-R",): [("-E", "--force-zero")]}.get(tuple(override), [])
+        for extra in foreign:
+            b2 = protected(L)
+            rx = L.run("sync", *extra)
+            if rx.rc == 0:
+                v.append(dict(kind="lifted-by-a-foreign-override", where=where + " with " + " ".join(extra), out=rx.text()[-300:]))
+            if protected(L) != b2:
+                v.append(dict(kind="refused-but-modified", where=where + " with " + " ".join(extra)))
+            if v:
+                break
         r2 = L.run("sync", *override)
     if r2.rc != 0:
         v.append(dict(kind="override-does-not-proceed", where=where, rc=r2.rc, out=r2.text()[-400:]))
